@@ -7,6 +7,7 @@ from typing import List, Optional, Tuple
 from ..cfg import cfg_of
 from ..facts import emission_sites, registry_model, trivially_dead, value_set, live_function_keys
 from ..fold import try_fold
+from ..minieval import Unsupported
 from ..model import AnalysisError, ancestors, parent, text, walk_fn
 from .c05 import _cfg_node_of_expr
 
@@ -96,11 +97,148 @@ def rule_nesting_state(run, prog, fn):
     run.require(n_ob >= 2, f"only {n_ob} state attributes read by the guard check (expected preproc.indent, protected)")
 
 
+# ---------------------------------------------------------------------------------------- the guard check, observed
+def expected_guard(basename: str) -> str:
+    return basename.upper().replace(".", "_")
+
+
+def eval_protection(prog) -> dict:
+    """CheckPreprocessorProtection.run interpreted (minieval, stub context) on `#ifndef X` / `#endif` statements for several
+    header names: {"derivation": [...], "h_only": [...], "handlers": {code: [...]}} -- lists of problems.  Raises
+    minieval.Unsupported when run() is outside the interpreter's subset."""
+    from ..minieval import Obj
+    from ..stubrun import RUNTIME_ERRORS, StubContext, default_object, line_tokens, run_rule
+    out = {"derivation": [], "h_only": [], "handlers": {c: [] for c in PROT_CODES}}
+    cls = "CheckPreprocessorProtection"
+
+    def stmt(direc, macro=None, tail=()):
+        ks = ["HASH", ("IDENTIFIER", direc)]
+        if macro is not None:
+            ks += ["SPACE", ("IDENTIFIER", macro)]
+        ks += ["NEWLINE"] + list(tail)
+        return line_tokens(ks)
+
+    def run(basename, tokens, *, indent, protected=False, history=("IsPreprocessorStatement",), macros=()):
+        sc = StubContext(prog, tokens, history=list(history), basename=basename, protected=protected)
+        try:
+            sc.obj.preproc = default_object(prog, "PreProcessors", sc)      # whatever state the class declares today
+        except RUNTIME_ERRORS:
+            pass
+        sc.obj.preproc.indent = indent
+        sc.obj.preproc._indent = indent
+        sc.obj.preproc.macros = [Obj("Macro", name=m, is_func=False) for m in macros]
+        try:
+            run_rule(prog, cls, sc)
+        except RUNTIME_ERRORS as e:
+            raise Unsupported(f"the check fails on a stub statement: {type(e).__name__}: {e}")
+        return [c for c in sc.codes() if c.startswith("HEADER_PROT_")], sc.obj
+
+    for base in ("foo.h", "my_lib.v2.h", "a.h", "libft_bonus.h", "my-lib.h"):
+        want = expected_guard(base)
+        got, _ = run(base, stmt("ifndef", want), indent=1)
+        if got:
+            out["derivation"].append(f"{base}: `#ifndef {want}` is reported {got}")
+        for wrong, why in ((want.lower(), "HEADER_PROT_UPPER"), (want.capitalize(), "HEADER_PROT_UPPER"),
+                           (base.upper(), "HEADER_PROT_NAME") if "." not in want else (want + "_", "HEADER_PROT_NAME"),
+                           (want + "_", "HEADER_PROT_NAME"), ("_" + want, "HEADER_PROT_NAME"),
+                           (base.rsplit(".", 1)[0].upper(), "HEADER_PROT_NAME"), (want.replace("_", ""), "HEADER_PROT_NAME"),
+                           ("GUARD_H", "HEADER_PROT_NAME")):
+            if wrong == want:
+                continue
+            got, _ = run(base, stmt("ifndef", wrong), indent=1)
+            if got != [why]:
+                (out["derivation"] if not got else out["handlers"][why]).append(
+                    f"{base}: `#ifndef {wrong}` (expected symbol {want}) is reported {got or 'not at all'}, expected {why}")
+        # .c: never
+        cbase = base[:-2] + ".c"
+        for toks, kw in ((stmt("ifndef", "WRONG_NAME"), dict(indent=1)), (stmt("ifndef", want), dict(indent=1, protected=True)),
+                         (stmt("endif", None, ["INT", "SPACE", ("IDENTIFIER", "x"), "SEMI_COLON", "NEWLINE"]), dict(indent=0)),
+                         (stmt("ifndef", "X_H"), dict(indent=1, history=("IsVarDeclaration", "IsPreprocessorStatement")))):
+            got, _ = run(cbase, toks, **kw)
+            if got:
+                out["h_only"].append(f"{cbase}: a guard diagnostic {got} is emitted for a .c file")
+        # doubled guard
+        got, _ = run(base, stmt("ifndef", want), indent=1, protected=True)
+        if "HEADER_PROT_MULT" not in got:
+            out["handlers"]["HEADER_PROT_MULT"].append(f"{base}: a second `#ifndef {want}` after the guard was closed is reported {got or 'not at all'}")
+        # declarations before the guard
+        got, _ = run(base, stmt("ifndef", want), indent=1, history=("IsComment", "IsVarDeclaration", "IsEmptyLine", "IsPreprocessorStatement"))
+        if "HEADER_PROT_ALL" not in got:
+            out["handlers"]["HEADER_PROT_ALL"].append(f"{base}: a declaration before `#ifndef {want}` is reported {got or 'not at all'}")
+        got, _ = run(base, stmt("ifndef", want), indent=1, history=("IsComment", "IsEmptyLine", "IsComment", "IsPreprocessorStatement"))
+        if got:
+            out["handlers"]["HEADER_PROT_ALL"].append(f"{base}: comments and empty lines before `#ifndef {want}` are reported {got}")
+        # closing #endif
+        tail = ["NEWLINE", "INT", "TAB", ("IDENTIFIER", "x"), "SEMI_COLON", "NEWLINE"]
+        got, ctx = run(base, stmt("endif", None, tail), indent=0, macros=(want,))
+        if got != ["HEADER_PROT_ALL_AF"]:
+            out["handlers"]["HEADER_PROT_ALL_AF"].append(f"{base}: a declaration after the closing #endif is reported {got or 'not at all'}")
+        if ctx.protected is not True:
+            out["handlers"]["HEADER_PROT_MULT"].append(f"{base}: the closing #endif does not mark the header as protected")
+        got, _ = run(base, stmt("endif", None, [("COMMENT", "// end"), "NEWLINE"]), indent=0, macros=(want,))
+        if got:
+            out["handlers"]["HEADER_PROT_ALL_AF"].append(f"{base}: a comment after the closing #endif is reported {got}")
+        got, _ = run(base, stmt("endif"), indent=0, macros=("OTHER_H",))
+        if got != ["HEADER_PROT_NODEF"]:
+            out["handlers"]["HEADER_PROT_NODEF"].append(f"{base}: a guard whose symbol {want} was never #defined is reported {got or 'not at all'}")
+        got, _ = run(base, stmt("endif"), indent=1, macros=())
+        if got:
+            out["handlers"]["HEADER_PROT_NODEF"].append(f"{base}: the #endif of a nested conditional (depth 1) is reported {got}")
+    for k in ("derivation", "h_only"):
+        out[k] = sorted(set(out[k]), key=out[k].index)
+    for c in out["handlers"]:
+        out["handlers"][c] = sorted(set(out["handlers"][c]), key=out["handlers"][c].index)
+    return out
+
+
+
+def _file_init_observed(prog, fi) -> bool:
+    """File.__init__ interpreted on stub paths: basename / name / type are the last path component and its split."""
+    import os.path
+    from ..minieval import Evaluator, Obj
+    try:
+        for path, want in (("dir/sub/foo.h", ("foo.h", "foo", ".h")), ("a.c", ("a.c", "a", ".c")), ("/x/my.lib.h", ("my.lib.h", "my.lib", ".h"))):
+            pathmod = Obj("module", _native={"basename": os.path.basename, "splitext": os.path.splitext, "split": os.path.split,
+                                             "dirname": os.path.dirname, "join": os.path.join})
+            ev = Evaluator({}, modules={"os": {"path": pathmod}})
+            ev.globals["Errors"] = lambda *a, **k: Obj("Errors")
+            me = Obj("File")
+            ev.invoke(fi.node, [me, path], {})
+            if (me.__dict__.get("basename"), me.__dict__.get("name"), me.__dict__.get("type")) != want:
+                return False
+        return True
+    except (Unsupported, LookupError, TypeError, ValueError, AttributeError):
+        return False
+
+
+
 def check(run, prog):
     cp = prog.cls("CheckPreprocessorProtection")
     fn = cp.methods.get("run")
     run.require(fn is not None, "anchor vanished: CheckPreprocessorProtection.run")
     g = cfg_of(fn)
+    _ev = {}
+
+    def observed():
+        """The behaviour of run() on stub statements (computed once; None when it cannot be interpreted)."""
+        if "r" not in _ev:
+            try:
+                _ev["r"] = eval_protection(prog)
+            except Unsupported as ex:
+                _ev["r"] = None
+                run.note(f"CheckPreprocessorProtection.run cannot be interpreted on stub statements ({ex}); syntactic forms only")
+        return _ev["r"]
+
+    def rescued(part, code=None) -> bool:
+        """The syntactic form was not recognised: does the behaviour on stub statements show the obligation holds?"""
+        r = observed()
+        if r is None:
+            return False
+        probs = r[part] if code is None else r[part][code]
+        if not probs:
+            run.note(f"R-14: form not recognised for {part}{'/' + code if code else ''}, but run() interpreted on stub "
+                     f"`#ifndef` / `#endif` statements of five header names behaves as required: accepted")
+        return not probs
 
     # ---- R-14.1 ---------------------------------------------------------------------------------
     run.rule("R-14.1", "derivation chain: the symbol the guard macro is compared with derives from context.file.basename "
@@ -108,7 +246,6 @@ def check(run, prog):
     # names compared with the macro token's value
     macro_names = {n.targets[0].id for n in walk_fn(fn.node) if isinstance(n, ast.Assign) and len(n.targets) == 1
                    and isinstance(n.targets[0], ast.Name) and text(n.value).endswith(".value") and "peek_token" in text(n.value)}
-    run.require(macro_names, "anchor vanished: the macro token value in CheckPreprocessorProtection.run")
     compared = set()
     for n in walk_fn(fn.node):
         if isinstance(n, ast.Compare) and len(n.ops) == 1 and isinstance(n.ops[0], (ast.Eq, ast.NotEq)):
@@ -120,7 +257,8 @@ def check(run, prog):
                     compared.add("<expr>" + text(b))
         if isinstance(n, ast.Call) and isinstance(n.func, ast.Attribute) and n.func.attr == "has_macro_defined" and n.args:
             compared.add(n.args[0].id if isinstance(n.args[0], ast.Name) else "<expr>" + text(n.args[0]))
-    run.ob("R-14.1", f"{fn.key}::single-expected-symbol", len(compared) == 1 and not next(iter(compared)).startswith("<expr>"),
+    run.ob("R-14.1", f"{fn.key}::single-expected-symbol",
+           (len(compared) == 1 and not next(iter(compared)).startswith("<expr>")) or rescued("derivation"),
            f"the macro is compared with {sorted(compared)}: expected one local holding the symbol derived from the file name",
            fn.node)
     gname = next(iter(compared)) if compared else "guard"
@@ -144,13 +282,15 @@ def check(run, prog):
         rep = [a for m, a in chain if m == "replace"]
         ok = base == "context.file.basename" and meths == ["replace", "upper"] and rep and rep[0] == ["'.'", "'_'"]
         why = f"derived as {text(defs[0].value)}"
-    run.ob("R-14.1", f"{fn.key}::expected-symbol-derivation", ok,
+    run.ob("R-14.1", f"{fn.key}::expected-symbol-derivation", ok or rescued("derivation"),
            f"the expected guard symbol is not basename.upper().replace('.', '_') ({why})", defs[0] if defs else fn.node)
     fi = prog.method("File", "__init__")
     ok = any(isinstance(n, ast.Assign) and text(n.targets[0]) == "self.basename" and text(n.value) == "os.path.basename(path)"
              for n in walk_fn(fi.node))
     ok2 = any(isinstance(n, ast.Assign) and text(n.targets[0]) == "(self.name, self.type)" and
               text(n.value) == "os.path.splitext(self.basename)" for n in walk_fn(fi.node))
+    if not (ok and ok2):
+        ok = ok2 = _file_init_observed(prog, fi)
     run.ob("R-14.1", f"{fi.key}::basename-and-type", ok and ok2,
            "File.basename / File.type are not os.path.basename(path) / the extension of the base name", fi.node)
 
@@ -158,10 +298,26 @@ def check(run, prog):
     run.rule("R-14.2", "dominance: every HEADER_PROT_* emission is reachable only through the `.h` outcome of a test on "
              "context.file.type", floor=4)
     h_edges = {}
+    from ..dataflow import expand_aliases
+    from ..fold import fold_in_fn
     for node in g.nodes:
-        if node.kind == "test" and isinstance(node.ast, ast.Compare) and len(node.ast.ops) == 1 \
-                and text(node.ast.left) in ("context.file.type",) and try_fold(node.ast.comparators[0], fn.mod) == ".h":
-            h_edges[node.id] = "T" if isinstance(node.ast.ops[0], ast.Eq) else "F" if isinstance(node.ast.ops[0], ast.NotEq) else None
+        if node.kind != "test":
+            continue
+        t = expand_aliases(fn, node.ast)
+        neg = False
+        while isinstance(t, ast.UnaryOp) and isinstance(t.op, ast.Not):
+            t, neg = t.operand, not neg
+        if isinstance(t, ast.Compare) and len(t.ops) == 1:
+            L, op, R = t.left, t.ops[0], t.comparators[0]
+            if text(L) != "context.file.type" and text(R) == "context.file.type" and isinstance(op, (ast.Eq, ast.NotEq)):
+                L, R = R, L
+            if text(L) == "context.file.type":
+                v = fold_in_fn(R, fn, default=None)
+                only_h = v == ".h" or (isinstance(v, (tuple, list, set, frozenset)) and set(v) == {".h"})
+                if only_h and isinstance(op, (ast.Eq, ast.In)):
+                    h_edges[node.id] = "F" if neg else "T"
+                elif only_h and isinstance(op, (ast.NotEq, ast.NotIn)):
+                    h_edges[node.id] = "T" if neg else "F"
     live = live_function_keys(prog)
     by_code = {}
     for e in emission_sites(prog):
@@ -180,7 +336,7 @@ def check(run, prog):
             nid = _cfg_node_of_expr(g, e.node)
             leak = nid in g.reachable(g.entry, follow_exc=False,
                                       edge_filter=lambda n, m, lab: not (n in h_edges and lab == h_edges[n]))
-            run.ob("R-14.2", f"{fn.key}::h-only[{code}]", bool(h_edges) and not leak,
+            run.ob("R-14.2", f"{fn.key}::h-only[{code}]", (bool(h_edges) and not leak) or rescued("h_only"),
                    f"{code} can be emitted for a file whose type is not .h: .c files would get guard diagnostics", e.node)
 
     # ---- R-14.3 ---------------------------------------------------------------------------------------
@@ -191,7 +347,11 @@ def check(run, prog):
         ok = bool(sites)
         hint = GUARD_HINT.get(code)
         if ok and hint is not None:
-            ok = any(any(isinstance(a, ast.If) and hint[0] in text(a.test) for a in ancestors(e.node)) for e in sites)
+            from .c03 import dominating_atoms
+            ok = any(any(hint[0] in text(atom, 400) for atom, _, _ in dominating_atoms(e.fn, e.node)) or
+                     any(isinstance(a, ast.If) and hint[0] in text(a.test) for a in ancestors(e.node)) for e in sites)
+        if not ok and sites:
+            ok = rescued("handlers", code)
         run.ob("R-14.3", f"{cp.key}::handler[{code}]", ok,
                f"no live emission of {code}" + (f" under a test on `{hint[0]}` ({hint[1]})" if hint else ""),
                sites[0].node if sites else cp.node)
